@@ -241,6 +241,17 @@ def run_part(ctx: Ctx, data, prefix: str = PREFIX, salt: str = ''):
                               without=(o0.get('request') or o0.get('error') or '')[:1500]), found_input=False)
                 continue
             stats['traces-identical-with-and-without-probe'] += 1
+            # implementation side, no model involved: a COMPLETED tableau is one on which the rules' own enumerations find
+            # nothing more to do on any open branch (the scheduler must not stop while some rule still has a target)
+            if o.get('completed') and o['probes'] and o['probes'][-1]:
+                bi0, rname, tg0 = o['probes'][-1][0]
+                stats['completed-with-targets'] += 1
+                k0 = f'{prefix}:{j["logic"]}:{rname}:completed-with-targets'
+                ctx.fail(k0, f'{j["logic"]}: the tableau reports completed, but rule {rname} still has {len(tg0)} target(s) on open branch {bi0} '
+                         f'by its own enumeration ({tg0[:2]})', dict(stream='search-corr', argument=tabrun.arg_text(j), order_seed=sd,
+                         mode=j.get('mode'), final_targets=o['probes'][-1][:6]), found_input=True)
+            elif o.get('completed'):
+                stats['completed-runs-with-no-target-left'] += 1
             stats['real-steps'] += len(o['probes']) - 1
             for _cls, _name, fam in o['families']:
                 fam_hist[fam.split(':')[0] if not fam.startswith('unmodelled') else fam] += 1
